@@ -15,10 +15,12 @@ pub fn judge(cfg: &Cfg, o: &Outcome) -> Vec<(String, String)> {
     }
     let graceful = cfg.mode != Mode::Forced;
     let timeout_ms = match cfg.mode {
-        Mode::Generous => GENEROUS_MS,
-        Mode::Short => SHORT_MS,
-        Mode::Forced => 0,
-    } as f64;
+        Mode::Generous => GENEROUS_MS as f64,
+        Mode::Short => SHORT_MS as f64,
+        Mode::Forced => 0.0,
+        // effectively unbounded: the shutdown may only end because every worker is idle
+        Mode::Unbounded | Mode::Huge => f64::INFINITY,
+    };
     // (1) every request received before the call is answered in full, provided its handler
     //     finishes within the timeout (i.e. its gate is one that opens)
     if graceful {
